@@ -13,7 +13,8 @@ INF = math.inf
 
 
 def lengths(ctx):
-    ls = [1.0, 0.3, 12.836, 10.0, 2.0 ** -3, 1000.0]
+    # 49.0 and 107.0: lengths whose rounded reciprocal gives L * (1/L) < 1 (breaks multiply-by-inverse shortcuts)
+    ls = [1.0, 0.3, 12.836, 10.0, 2.0 ** -3, 1000.0, 49.0, 107.0]
     if ctx.thorough:
         ls += [0.1, 0.7, 3.0, 7.3, 2.5, 1e-3, 31.4159, 6.0]
     return ls
@@ -252,5 +253,5 @@ def run(ctx):
 
 def replay(ctx, case):
     c = tuple(dec(case["case"]))
-    _, fails = check_case(c)
+    _, fails = par.guarded(check_case)(c)
     return sorted(set(k for k, _ in fails)) or None
